@@ -30,7 +30,8 @@ open Mcp.Str Mcp.Json Mcp.Content
 def two53 : Nat := 9007199254740992
 
 /-- smallest magnitude `strconv.ParseFloat(s, 64)` reports as out of range: 2^1024 − 2^970 -/
-def f64Overflow : Nat := 2 ^ 1024 - 2 ^ 970
+def f64Overflow : Nat :=
+  179769313486231580793728971405303415079934132710037826936173778980444968292764750946649017977587207096330286416692887910946555547851940402630657488671505820681908902000708383676273854845817711531764475730270069855571366959622842914819860834936475292719074168444365510704342711559699508093042880177904174497792
 
 /-- round-to-nearest-even of a natural number to a 53-bit significand -/
 def f64RoundNat (n : Nat) : Nat :=
@@ -436,6 +437,11 @@ def modelledBareSites : List (Text × Text) :=
   [(t!"lifecycleManager.handleInitialize", t!"req.Params.(map[string]interface{})"),
    (t!"lifecycleManager.handleInitialize", t!"paramsMap[\"protocolVersion\"].(string)")]
 
+/-- Bare assertions in the same files that are NOT on the peer-input path: `SendRequest` asserts the id of the request the
+    APPLICATION hands to the server (server-initiated traffic, C05) — no peer input reaches them. -/
+def applicationSideBareSites : List (Text × Text) :=
+  [(t!"SSEServer.SendRequest", t!"request.ID.(int64)"), (t!"StdioServer.SendRequest", t!"request.ID.(int64)")]
+
 /-- `paramsMap := req.Params.(map[string]interface{})` — bare -/
 def bareParamsMap (req : Req) : Outcome Obj :=
   match req.params with
@@ -713,5 +719,128 @@ def serveStdio (reg : Registry) (b : Body) : Reaction :=
         | .panic => .panic
         | .ok a => .resp ⟨none, none, (ansMsg req.id a).toList⟩
     | some _ => .nothing
+
+/-! ## what the model assumes about the source (compared with the regenerated facts `Mcp.Gen.rpc…`) -/
+
+/-- the error code of every error answer on the request path, per enclosing function in source order — the codes the model
+    functions above use in the corresponding branches -/
+def modelledErrorCodes : List (Text × Int) :=
+  [(t!"mcpHandler.dispatchRequest", codeMethodNotFound),
+   (t!"lifecycleManager.checkInitializeParams", codeInvalidParams), (t!"lifecycleManager.checkInitializeParams", codeInvalidParams),
+   (t!"lifecycleManager.checkInitializeParams", codeInvalidParams),
+   (t!"parseGetPromptParams", codeInvalidParams), (t!"parseGetPromptParams", codeInvalidParams),
+   (t!"promptManager.handleGetPrompt", codeMethodNotFound), (t!"promptManager.handleGetPrompt", codeInternal),
+   (t!"parseCompletionCompleteParams", codeInvalidParams), (t!"parseCompletionCompleteParams", codeInvalidParams),
+   (t!"parseCompletionCompleteParams", codeInvalidParams), (t!"parseCompletionCompleteParams", codeInvalidParams),
+   (t!"promptManager.handlePromptCompletion", codeMethodNotFound),
+   (t!"resourceManager.handleReadResource", codeInvalidParams), (t!"resourceManager.handleReadResource", codeInvalidParams),
+   (t!"resourceManager.handleReadResource", codeMethodNotFound), (t!"resourceManager.handleReadResource", codeInternal),
+   (t!"resourceManager.handleSubscribe", codeInvalidParams), (t!"resourceManager.handleSubscribe", codeInvalidParams),
+   (t!"resourceManager.handleSubscribe", codeMethodNotFound),
+   (t!"resourceManager.handleUnsubscribe", codeInvalidParams), (t!"resourceManager.handleUnsubscribe", codeInvalidParams),
+   (t!"toolManager.handleCallTool", codeInvalidParams), (t!"toolManager.handleCallTool", codeInvalidParams),
+   (t!"toolManager.handleCallTool", codeInvalidParams), (t!"toolManager.handleCallTool", codeMethodNotFound),
+   (t!"toolManager.handleCallTool", codeInvalidParams), (t!"toolManager.handleCallTool", codeInternal),
+   (t!"SSEServer.handleMessage", codeParse), (t!"SSEServer.handleMessage", codeParse), (t!"SSEServer.handleMessage", codeInvalidRequest),
+   (t!"SSEServer.handleRequestError", codeInternal),
+   (t!"stdioServerInternal.HandleRequest", codeParse), (t!"stdioServerInternal.HandleRequest", codeMethodNotFound),
+   (t!"stdioServerInternal.HandleRequest", codeInternal),
+   (t!"httpServerHandler.handlePostRequest", codeInternal), (t!"httpServerHandler.handlePostRequest", codeInternal)]
+
+/-- every `go` statement of the legacy SSE and stdio servers: (enclosing function, what is started, it recovers). The two
+    per-request ones — `handleRequestMessage → processRequestAsync` and the line handler of `processInputStream` — do not
+    recover: a panic raised while serving a request there ends the process (`Reaction.panic`). -/
+def modelledGoStmts : List (Text × Text × Bool) :=
+  [(t!"SSEServer.handleSSE", t!"handleNotifications", true), (t!"SSEServer.handleSSE", t!"handleEventQueue", true),
+   (t!"SSEServer.handleSSE", t!"handleKeepAlive", true),
+   (t!"SSEServer.handleRequestMessage", t!"s.processRequestAsync", false),
+   (t!"SSEServer.handleNotificationMessage", t!"func", false), (t!"SSEServer.handleNotification", t!"func", false),
+   (t!"stdioTransport.listen", t!"s.handleOutgoingMessages", false), (t!"stdioTransport.processInputStream", t!"func", false),
+   (t!"stdioTransport.readNextLine", t!"func", false), (t!"stdioServerInternal.HandleNotification", t!"func", false)]
+
+/-! ## vocabulary of the property statements -/
+
+/-- the methods every transport serves, in the order of the statement of C14 -/
+def commonMethods : List Text :=
+  [t!"initialize", t!"ping", t!"tools/list", t!"tools/call", t!"prompts/list", t!"prompts/get", t!"resources/list",
+   t!"resources/read"]
+
+/-- `POST` of a JSON value to the configured path -/
+def postOf (ref : Mcp.Session.Ref) (acceptSSE : Bool) (j : Json) : HttpIn := ⟨.post, true, ref, acceptSSE, .json j⟩
+
+/-- `POST` of a JSON value to the message endpoint of a live legacy-SSE session -/
+def ssePostOf (j : Json) : SseIn := ⟨.post, .message, .live, .json j⟩
+
+
+/-- the request arrives in a session the Streamable server accepts it in: a live session, or none for `initialize` -/
+def sessionOk (c : SCfg) (st : Mcp.Session.St) (ref : Mcp.Session.Ref) (method : Text) : Prop :=
+  c.sess.mode = .stateful → (∃ s, ref = .sid s ∧ s ∈ st.live) ∨ (ref = .none ∧ method = t!"initialize")
+
+def isErrorMsg : Json → Bool
+  | .obj o => hasKey o t!"error"
+  | _ => false
+
+/-- the input is answered by an HTTP error status or by a JSON-RPC error object -/
+def Reaction.answeredWithError : Reaction → Bool
+  | .resp r => (match r.status with | some s => decide (400 ≤ s) | none => false) || (r.body.toList ++ r.frames).any isErrorMsg
+  | .panic => false
+
+/-- The body is not a JSON-RPC message a server could act on: not JSON at all; a JSON value the envelope decoder rejects
+    (not an object, `jsonrpc` / `method` of the wrong kind, an id holding a number no float64 can hold); an object with
+    neither an id nor a method. -/
+inductive Malformed : Body → Prop
+  | unparsable : Malformed .parseFail
+  | undecodable (j : Json) : decodeBase j = none → Malformed (.json j)
+  | empty (j : Json) (b : Base) : decodeBase j = some b → b.id = none → b.method = [] → Malformed (.json j)
+
+/-- a history of HTTP exchanges with one Streamable server -/
+def runStreamable (c : SCfg) (reg : Registry) : Mcp.Session.St → List HttpIn → Mcp.Session.St × List Reaction
+  | st, [] => (st, [])
+  | st, i :: is =>
+    let r := serveStreamable c reg st i
+    let rest := runStreamable c reg r.1 is
+    (rest.1, r.2 :: rest.2)
+
+/-- every input of the history is answered with an error at the time it arrives -/
+def allRefused (c : SCfg) (reg : Registry) : Mcp.Session.St → List HttpIn → Prop
+  | _, [] => True
+  | st, i :: is => (serveStreamable c reg st i).2.answeredWithError = true ∧ allRefused c reg (serveStreamable c reg st i).1 is
+
+/-- the session reference of a request names nothing the server has not issued yet -/
+def refKnown (st : Mcp.Session.St) : Mcp.Session.Ref → Prop
+  | .sid s => s < st.issued
+  | _ => True
+
+/-- the normalised outcome of an exchange: the result, or the error code, of the only message emitted -/
+inductive Norm
+  | result (r : Json)
+  | error (code : Option Json)
+  | silent
+  | other
+
+def normMsg : Json → Norm
+  | .obj o =>
+    match lookup o t!"error", lookup o t!"result" with
+    | some (.obj e), _ => .error (lookup e t!"code")
+    | none, some r => .result r
+    | _, _ => .other
+  | _ => .other
+
+def Reaction.outcome (r : Reaction) : Norm :=
+  match r.messages with
+  | [] => .silent
+  | [m] => normMsg m
+  | _ => .other
+
+/-- the error code of the only message, if it is an error with an integer code -/
+def Reaction.errorCode (r : Reaction) : Option Int :=
+  match r.outcome with
+  | .error (some (.int c)) => some c
+  | _ => none
+
+def Reaction.hasResult (r : Reaction) : Bool :=
+  match r.outcome with
+  | .result _ => true
+  | _ => false
 
 end Mcp.Rpc
